@@ -159,6 +159,11 @@ pub fn main(args: &[String]) {
                     wal = None;
                     "ok".into()
                 }
+                "persister" => {
+                    // `persister free`: the background marker persister runs on its own schedule from here on
+                    walrus_rust::wal::verif_hooks::hold_marker_persister(t[1] != "free");
+                    "ok".into()
+                }
                 "persist" => {
                     // let the background persister make one full pass: two loop iterations must
                     // start after the release (the first may have passed the hold check already)
